@@ -898,6 +898,9 @@ func (c *fnCtx) usableAt(l Lin, b *ssa.BasicBlock, idx int) bool {
 			if ver == "0" {
 				continue
 			}
+			if ver == "" {
+				return false
+			}
 			var bi, ii int
 			switch ver[0] {
 			case 'j':
